@@ -447,6 +447,22 @@ def f25():
     return (not bad) or bool(sim.has_crashed), f"accepted; non-finite values recorded: {bad}; crashed flag: {sim.has_crashed}"
 
 
+@trigger("F26", ["C08", "C04", "C11", "C20"])
+def f26():
+    """a households_impact vector that lists a column with no damage (explicit 0) must not poison the reconstruction demand"""
+    tb = base_table(m=2, n=3, k=1)
+    cfg = base_cfg()
+    ev = reb_event(tb, cfg, frac=0.05, occ=2, dur=1, tau=4, house={"rA|gov": 40.0, "rB|gov": 0.0})
+    try:
+        sim = run_loop(mk_sc(tb, cfg, [ev], T=8))
+    except Exception:
+        return True, "rejected / reported"
+    rd = sim.rebuild_demand.to_numpy(dtype=float)
+    un = sim.final_demand_unmet.to_numpy(dtype=float)
+    bad = bool(np.isnan(rd[2:8]).any() or np.isnan(un[:8]).any())
+    return (not bad) or bool(sim.has_crashed), f"NaN recorded in rebuild_demand / final_demand_unmet: {bad}; crashed flag: {sim.has_crashed}"
+
+
 def run_all(props=None, only=None):
     res = {}
     for fid, t in TRIGGERS.items():
